@@ -41,6 +41,8 @@ pub struct Spec {
     /// section and symbol names that are stored only as the tail of a longer string-table entry (as linkers do):
     /// (name, prefix of the longer entry); a symbol of the longer name with a decoy value is added for symbols
     pub tail_share: Vec<(String, String)>,
+    /// exact number of padding bytes behind the k-th segment in file order (empty: align to 4 and leave 4 bytes)
+    pub file_pads: Vec<u32>,
 }
 
 fn be16(v: &mut Vec<u8>, x: u16) {
@@ -107,12 +109,17 @@ impl Spec {
         let mut off = phoff + 32 * nph as u32;
         off = (off + 15) & !15;
         let mut seg_off = vec![0u32; self.segs.len()];
-        for &k in self.file_order.iter() {
+        for (i, &k) in self.file_order.iter().enumerate() {
             seg_off[k] = off;
             off += self.segs[k].filesz;
-            off = (off + 3) & !3;
-            off += 4; // a gap between contents
+            if self.file_pads.is_empty() {
+                off = (off + 3) & !3;
+                off += 4; // a gap between contents
+            } else {
+                off += self.file_pads.get(i).copied().unwrap_or(0);
+            }
         }
+        off = (off + 3) & !3;
         // section contents
         let names = [".shstrtab", ".got", ".stack", ".symtab", ".strtab"];
         // section list: index 0 = NULL, then named sections in `section_order` with fillers interleaved
@@ -285,6 +292,7 @@ impl Spec {
             "load_flags": self.load_flags,
             "zero_runs": self.zero_runs.iter().map(|x| json!([x.0, x.1, x.2])).collect::<Vec<_>>(),
             "tail_share": self.tail_share.iter().map(|x| json!([x.0, x.1])).collect::<Vec<_>>(),
+            "file_pads": self.file_pads,
             "nonload": self.nonload.iter().map(|x| json!([x.0, x.1, x.2, x.3])).collect::<Vec<_>>(),
             "file_order": self.file_order,
             "got": self.got.as_ref().map(|(a, e)| json!([a, e])),
@@ -310,6 +318,7 @@ impl Spec {
             fillers: v["fillers"].as_u64()? as usize,
             args: v["args"].as_str()?.to_string(),
             seed: u(&v["seed"])?,
+            file_pads: v["file_pads"].as_array().map(|a| a.iter().map(|x| u(x).unwrap_or(0)).collect()).unwrap_or_default(),
             load_flags: v["load_flags"].as_array().map(|a| a.iter().map(|x| u(x).unwrap_or(7)).collect()).unwrap_or_default(),
             tail_share: v["tail_share"].as_array().map(|a| a.iter().map(|x| (x[0].as_str().unwrap_or("").to_string(), x[1].as_str().unwrap_or("").to_string())).collect()).unwrap_or_default(),
             zero_runs: v["zero_runs"].as_array().map(|a| a.iter().map(|x| (u(&x[0]).unwrap_or(0) as usize, u(&x[1]).unwrap_or(0), u(&x[2]).unwrap_or(0))).collect()).unwrap_or_default(),
@@ -332,6 +341,7 @@ pub fn default_spec() -> Spec {
         load_flags: Vec::new(),
         zero_runs: Vec::new(),
         tail_share: Vec::new(),
+        file_pads: Vec::new(),
     }
 }
 
@@ -918,8 +928,60 @@ pub fn specs(tier: Tier) -> Vec<Spec> {
     out
 }
 
+/// Three file-backed segments whose sizes, file paddings and memory gaps coincide: every order in the table, in the
+/// file and in memory x sizes x paddings x gaps from one small set, so that "the padding equals a segment's size",
+/// "two segments have the same distance in the file and in memory", "consecutive in the file but not in memory" and
+/// their combinations all occur (what a loader that coalesces copies would key on).
+fn specs_three_segments(tier: Tier) -> Vec<Spec> {
+    let perms: [[usize; 3]; 6] = [[0, 1, 2], [0, 2, 1], [1, 0, 2], [1, 2, 0], [2, 0, 1], [2, 1, 0]];
+    let sizes: &[u32] = if tier == Tier::Thorough { &[16, 32, 48] } else { &[16, 32] };
+    let pads: &[u32] = if tier == Tier::Thorough { &[0, 16, 32, 48] } else { &[0, 16, 32] };
+    let d = default_spec();
+    let mut out = Vec::new();
+    let mut seed = 0u32;
+    for &s0 in sizes {
+        for &s1 in sizes {
+            for &s2 in sizes {
+                let sz = [s0, s1, s2];
+                for &p0 in pads {
+                    for &p1 in pads {
+                        for &g0 in pads {
+                            for &g1 in pads {
+                                // table order is the index order; file order and memory order are permutations of it
+                                for fo in perms.iter() {
+                                    for mo in perms.iter() {
+                                        let mut vaddr = [0u32; 3];
+                                        let mut a = 0u32;
+                                        for (i, &k) in mo.iter().enumerate() {
+                                            vaddr[k] = a;
+                                            a += sz[k] + [g0, g1, 0][i];
+                                        }
+                                        let mut s = d.clone();
+                                        s.segs = (0..3).map(|k| Seg { vaddr: vaddr[k], filesz: sz[k], memsz: sz[k] }).collect();
+                                        s.file_order = fo.to_vec();
+                                        s.file_pads = vec![p0, p1, 4];
+                                        s.got = None;
+                                        s.symbols = vec![("_start".into(), 0), ("___exit".into(), 8)];
+                                        s.seed = seed;
+                                        seed = seed.wrapping_add(1);
+                                        out.push(s);
+                                    }
+                                }
+                            }
+                        }
+                    }
+                }
+            }
+        }
+    }
+    out
+}
+
 fn specs_for(prop: &str, tier: Tier) -> Vec<Spec> {
     let mut all = specs(tier);
+    if prop == "C11" {
+        all.extend(specs_three_segments(tier));
+    }
     if prop == "C11" {
         all.extend(specs_top_of_dram());
     }
@@ -931,7 +993,7 @@ fn elf_units(prop: &'static str, tier: Tier) -> Vec<Unit> {
     let n = all.len() as u64;
     let chunks = 64u64.min(n);
     let dom = format!(
-        "{} generated ELF32-BE files, factorised so that each factor is a full product around a default layout: segment layouts (1-4 PT_LOAD, sizes/gaps from a small set incl. 0/1/3/4/0x71/0x1271, filesz <= memsz, file offsets not in address order), 0-2 non-load program headers in every position incl. last, all 120 orders of .shstrtab/.got/.stack/.symtab/.strtab x filler sections, .got of 0-3 and 64 entries at aligned/unaligned positions with carrying values, stack sizes 0-64 KiB, empty PT_LOAD entries sharing an address with / inside / between other segments, (C11 only: files without .stack whose last segment and GOT reach the last bytes of DRAM), symbol tables of 1-200 symbols with ___exit first/middle/last among decoys and names that extend ___exit, argument strings (all separator patterns x 0-3 words, 32 words, every printable ASCII character)",
+        "{} generated ELF32-BE files, factorised so that each factor is a full product around a default layout: segment layouts (1-4 PT_LOAD, sizes/gaps from a small set incl. 0/1/3/4/0x71/0x1271, filesz <= memsz, file offsets not in address order), 0-2 non-load program headers in every position incl. last, all 120 orders of .shstrtab/.got/.stack/.symtab/.strtab x filler sections, .got of 0-3 and 64 entries at aligned/unaligned positions with carrying values, stack sizes 0-64 KiB, empty PT_LOAD entries sharing an address with / inside / between other segments, (C11 only: files without .stack whose last segment and GOT reach the last bytes of DRAM; three file-backed segments in all 6 table x 6 file x 6 memory orders with sizes, file paddings and memory gaps from one small set so that they coincide), symbol tables of 1-200 symbols with ___exit first/middle/last among decoys and names that extend ___exit, argument strings (all separator patterns x 0-3 words, 32 words, every printable ASCII character)",
         n
     );
     vec![Unit::new("files", chunks, &dom, move |ctx, chunk| {
